@@ -124,29 +124,8 @@ def run(tier, seed):
 def apalache_inductive(r):
     """Unbounded design argument: Apalache discharges `Init => IndInv` and `IndInv /\\ Next => IndInv'` for spec/TransportInd.tla, i.e. for
     every buffer size, record size <= buffer, short-read cap and burst pattern; without the pending() short-cut the step must fail."""
-    import os
-    import shutil
-    import subprocess
-    from .. import tlc
-    d = tlc.scratch_dir()
-    out = {}
-    try:
-        src = open(os.path.join(tlc.SPEC_DIR, 'TransportInd.tla')).read()
-        open(os.path.join(d, 'TransportInd.tla'), 'w').write(src)
-        broken = src.replace('MODULE TransportInd', 'MODULE TransportIndNoShortcut').replace('IF tls /\\ tbuf > 0 THEN pc\' = "recv"', 'IF FALSE THEN pc\' = "recv"')
-        open(os.path.join(d, 'TransportIndNoShortcut.tla'), 'w').write(broken)
-        runs = [('base', 'TransportInd.tla', ['--init=Init', '--length=0']), ('step', 'TransportInd.tla', ['--init=IndInit', '--length=1']),
-                ('step_without_shortcut', 'TransportIndNoShortcut.tla', ['--init=IndInit', '--length=1'])]
-        for label, mod, args in runs:
-            try:
-                p = subprocess.run(['apalache-mc', 'check', '--cinit=ConstInit', '--inv=IndInv', '--out-dir=' + os.path.join(d, 'out')] + args + [mod],
-                                   cwd=d, stdout=subprocess.PIPE, stderr=subprocess.STDOUT, timeout=600)
-                txt = p.stdout.decode('utf-8', 'replace')
-                out[label] = 'OK' if 'EXITCODE: OK' in txt else ('VIOLATED' if 'violat' in txt.lower() or 'EXITCODE: ERROR (12)' in txt else 'ERROR')
-            except Exception as e:
-                out[label] = 'not run: %r' % (e,)
-    finally:
-        shutil.rmtree(d, ignore_errors=True)
+    from .. import apalache
+    out = apalache.inductive('TransportInd', broken={'step_without_shortcut': ('IF tls /\\ tbuf > 0 THEN pc\' = "recv"', 'IF FALSE THEN pc\' = "recv"')})
     r.cov['apalache_inductive_invariant'] = out
     if out.get('base') == 'OK' and out.get('step') == 'OK' and out.get('step_without_shortcut') == 'VIOLATED':
         r.tlc_runs.append({"run": "apalache-mc TransportInd.tla: IndInv inductive for all parameters; not inductive without the pending() short-cut", "result": out})
